@@ -102,6 +102,8 @@ def refresh_ports(I, st, tag):
     for q in ('sigq', 'stopq'):
         taken = z3.UGE(prev[q]['st'], 2)
         st.objs[q]['st'] = z3.If(taken, prev[q]['st'], st.objs[q]['st'])
+    # marker for the oracles: the poll that follows starts with a kill signal waiting iff this term is true
+    st.emit('PORTS', tag, z3.simplify(st.objs['sigq']['st'] == 1))
     return init
 
 
